@@ -10,9 +10,13 @@
    is what NumPy returns for case c (err = TRUE: NumPy raises).  Nothing is said
    about output chunks.
 
-   qr / svd / tsqr / sfqr are floating-point linear algebra: an explicit-state
-   integer model cannot express orthonormality or reconstruction up to rounding,
-   so that half of the property is NOT specified here (not decided).          *)
+   qr / svd / tsqr / sfqr: the numerical content of the factors is floating-point
+   linear algebra that an explicit-state integer model cannot compute.  What IS
+   specified (last section) is the structure: for which chunkings the functions
+   are defined, the shapes of the factors, the consistency of their declared
+   chunks, and - on error measures the harness computes from the real factors and
+   reports as integers - exact triangularity and reconstruction / orthonormality /
+   singular values within a fixed relative tolerance.                          *)
 EXTENDS IndexMaps, Broadcast, TLC
 
 Ok(a) == [err |-> FALSE, shape |-> a.shape, cells |-> a.cells]
@@ -165,4 +169,46 @@ MetaOK(o) ==
   /\ \A d \in DOMAIN o.chunks :
         (\A i \in DOMAIN o.chunks[d] : o.chunks[d][i] >= 0)
            => (SumSeq(o.chunks[d]) = o.cshape[d] /\ o.lshape[d] = o.cshape[d])
+Cl2(name, holds) == IF holds THEN {} ELSE {name}
+
+-----------------------------------------------------------------------------
+(* decompositions of an (m, n) matrix cut into chunks = <<row chunks, column chunks>>.
+   Reduced factorizations, k = min(m, n):   qr / tsqr / sfqr:  Q (m, k), R (k, n);   svd:  U (m, k), S (k), V (k, n).
+   The documented preconditions (everything else raises ValueError / NotImplementedError, or is outside
+   "tall-and-skinny or short-and-fat" and not judged):
+     tsqr  one column of blocks, and - if there are several row blocks - at least as many rows as columns
+           (row blocks may be shorter than the matrix is wide);
+     sfqr  one row of blocks, the first block at least as wide as the matrix is high (or a single block);
+     qr    = tsqr for one column of several blocks, sfqr for one row of blocks;
+     svd   chunked along one axis only. *)
+Min2t(x, y) == IF x < y THEN x ELSE y
+DecompOps == {"qr", "tsqr", "sfqr", "svd"}
+SfqrOK(chunks) == Len(chunks[1]) = 1 /\ (chunks[1][1] <= chunks[2][1] \/ Len(chunks[2]) = 1)
+InDomain(op, shape, chunks) ==
+  LET nr == Len(chunks[1])
+      nc == Len(chunks[2])
+  IN CASE op = "tsqr" -> nc = 1 /\ (nr = 1 \/ shape[1] >= shape[2])
+       [] op = "sfqr" -> SfqrOK(chunks)
+       [] op = "qr"   -> IF nc = 1 /\ nr > 1 THEN shape[1] >= shape[2] ELSE SfqrOK(chunks)
+       [] op = "svd"  -> ~(nr > 1 /\ nc > 1)
+FactorShapes(op, shape) ==
+  LET k == Min2t(shape[1], shape[2])
+  IN IF op = "svd" THEN << <<shape[1], k>>, <<k>>, <<k, shape[2]>> >> ELSE << <<shape[1], k>>, <<k, shape[2]>> >>
+
+\* error measures are reported in units of 1e-10 relative to max |A|; the tolerance is 1e-6
+Tol == 10000
+\* r = [c = [op, shapes = <<shape>>, dch = chunks], raised, f = factor observations, rlow = number of non-zero entries
+\* of R below the diagonal, recon / orth / sv = error of the reconstruction, of Q'Q = I (U'U, VV'), of the singular values]
+DecompBad(r) ==
+  LET op == r.c.op
+      fs == FactorShapes(op, r.c.shapes[1])
+  IN IF ~InDomain(op, r.c.shapes[1], r.c.dch) THEN {}
+     ELSE IF r.raised # "" THEN {"UnexpectedRaise"}
+     ELSE IF [i \in DOMAIN r.f |-> r.f[i].cshape] # fs THEN {"FactorShapes"}
+     ELSE Cl2("Meta", \A i \in DOMAIN r.f : MetaOK(r.f[i]))
+          \cup Cl2("Triangular", op = "svd" \/ r.rlow = 0)
+          \cup Cl2("Reconstruction", r.recon <= Tol)
+          \cup Cl2("Orthonormal", r.orth <= Tol)
+          \cup Cl2("SingularValues", op # "svd" \/ r.sv <= Tol)
+
 =============================================================================
